@@ -53,11 +53,14 @@ KINDS = ("coro", "gen", "agen")
 
 
 def overapprox(got, rt, withs, obj_known=True):
-    """got: list of Context. Returns problems."""
+    """got: list of Context. Returns problems.  (Entries of rt.active are managers, or activations of a re-entrant
+    manager: ps.mgr_of() gives the manager object of either.)"""
     problems = []
     active = list(rt.active)
     exiting = rt.exiting
     entering = rt.entering
+    ex_obj = ps.mgr_of(exiting) if exiting is not None else None
+    en_obj = ps.mgr_of(entering) if entering is not None else None
     r_ex = [c for c in got if c.is_exiting]
     r_non = [c for c in got if not c.is_exiting]
     if exiting is not None:
@@ -67,7 +70,7 @@ def overapprox(got, rt, withs, obj_known=True):
             c = r_ex[0]
             if c.is_async != exiting.is_async:
                 problems.append("is_exiting entry has is_async=%r for %r" % (c.is_async, exiting))
-            if obj_known and c.obj is not None and c.obj is not exiting:
+            if obj_known and c.obj is not None and c.obj is not ex_obj:
                 problems.append("is_exiting entry obj %r is not the exiting manager %r" % (c.obj, exiting))
             if got[-1] is not c:
                 problems.append("is_exiting entry is not last")
@@ -78,7 +81,7 @@ def overapprox(got, rt, withs, obj_known=True):
     i = 0
     extras = []
     for c in r_non:
-        if i < len(need) and c.obj is need[i]:
+        if i < len(need) and c.obj is ps.mgr_of(need[i]):
             if c.is_async != need[i].is_async:
                 problems.append("is_async wrong for %r" % (need[i],))
             i += 1
@@ -87,7 +90,7 @@ def overapprox(got, rt, withs, obj_known=True):
     if i < len(need):
         problems.append("active managers %r missing or out of order in %r" % (need[i:], [c.obj for c in r_non]))
     for c in extras:
-        if not (c.obj is entering or c.obj is exiting) or c.obj is None:
+        if not (c.obj is en_obj or c.obj is ex_obj) or c.obj is None:
             problems.append("extra entry %r is neither the manager being entered (%r) nor exited (%r)" % (c.obj, entering, exiting))
         elif c.is_async != c.obj.is_async:
             problems.append("is_async wrong for extra %r" % (c.obj,))
@@ -144,6 +147,20 @@ def run_A(ctx):
                 if body not in seen:
                     yield body
     idx = 0
+    # programs whose with-blocks are all served by ONE re-entrant manager object per kind (AST size <= 3)
+    g3 = ps.grammar("core")
+    for body in ps.programs(g3, 3, p["depth"]):
+        for kind in KINDS:
+            if not ps.kind_ok(body, kind) or not ps.nontrivial(body, kind):
+                continue
+            idx += 1
+            if not ctx.mine(idx):
+                continue
+            npaths, nobs = run_program(body, kind, ctx, ReferentsObserver, case_extra=dict(hist, ns="reentrant"), ns=ps.NS_REENTRANT)
+            ctx.count("reentrant_programs")
+            ctx.count("distinct_nontrivial")
+            ctx.count("paths", npaths)
+            ctx.count("evaluations", nobs)
     for body in space():
         for kind in KINDS:
             if not ps.kind_ok(body, kind):
